@@ -3,7 +3,9 @@ package main
 // gen.go: case emission shared by the topic generators.
 
 import (
+	"encoding/json"
 	"fmt"
+	"os"
 	"regexp"
 	"sort"
 	"strings"
@@ -16,6 +18,7 @@ type Gen struct {
 	E     *Env
 	Count map[string]int
 	Total int
+	Salt  int // derived from VERIF_SEED: varies which members/validators/heads are sampled
 	buf   []Case
 }
 
@@ -44,13 +47,52 @@ func (g *Gen) Flush() {
 		defs = append(defs, fmt.Sprintf("Definition r%d : N := %s.", i, k))
 	}
 	g.E.Header += "\n" + strings.Join(defs, "\n")
-	for _, c := range g.buf {
-		c.Coq = hexLit.ReplaceAllStringFunc(c.Coq, func(m string) string {
+	for i := range g.buf {
+		g.buf[i].Coq = hexLit.ReplaceAllStringFunc(g.buf[i].Coq, func(m string) string {
 			if n, ok := names[m]; ok {
 				return n
 			}
 			return m
 		})
+	}
+	if g.E.Replay != "" {
+		// replay: keep exactly the failing inputs named by the replay file (the generation is a function of the seed)
+		type ref struct {
+			Index int    `json:"index"`
+			Coq   string `json:"coq"`
+		}
+		var rp struct {
+			FailingCase ref   `json:"failing_case"`
+			More        []ref `json:"more"`
+			Mismatches  []ref `json:"correspondence_mismatches"`
+		}
+		if b, err := os.ReadFile(g.E.Replay); err == nil && json.Unmarshal(b, &rp) == nil {
+			refs := append(append([]ref{rp.FailingCase}, rp.More...), rp.Mismatches...)
+			byCoq := map[string]bool{}
+			for _, r := range refs {
+				if r.Coq != "" {
+					byCoq[r.Coq] = true
+				}
+			}
+			var kept []Case
+			for _, c := range g.buf {
+				if byCoq[c.Coq] {
+					kept = append(kept, c)
+				}
+			}
+			if len(kept) == 0 { // older replay files: by position
+				for _, r := range refs {
+					if r.Index >= 0 && r.Index < len(g.buf) {
+						kept = append(kept, g.buf[r.Index])
+					}
+				}
+			}
+			if len(kept) > 0 {
+				g.buf = kept
+			}
+		}
+	}
+	for _, c := range g.buf {
 		g.E.Add(c)
 	}
 	g.buf = nil
